@@ -56,6 +56,10 @@ class IncludeReverseFeaturesStrategy(AbstractFeatureDirectionStrategy):
         return len(self._c_shapes_dict[shape_label][_C_MAP_POS_DIRECT]) > 0 or \
                len(self._c_shapes_dict[shape_label][_C_MAP_POS_INVERSE]) > 0
 
+    def features_dicts_of_shape(self, shape_label):
+        return [self._c_shapes_dict[shape_label][_C_MAP_POS_DIRECT],
+                self._c_shapes_dict[shape_label][_C_MAP_POS_INVERSE]]
+
     def _annotate_2d_direct_instance_features(self, an_instance):
         direct_feautres_3tuple = self._infer_direct_3tuple_features(an_instance)
         for a_class in self._i_dict[an_instance][POS_CLASSES]:
